@@ -1,8 +1,9 @@
 #!/bin/bash
-# Generates the SCHED build overlay for C11 from the current /repo tree: instrumented pkg/network + mcrt + state dump.
+# Generates the SCHED build overlay from the current /repo tree: instrumented pkg/network + mcrt + state dump, and the
+# sequential errgroup shim in the fork-join files that share the caller's io.Reader (deterministic executions).
 set -eu
 out=$1
 rm -rf "$out"; mkdir -p "$out"
 V=${VERIF:-/verif}
 cd "$V/mc"
-go run ./instrument -repo /repo -verif "$V" -out "$out"
+go run ./instrument -repo /repo -verif "$V" -out "$out" -seq-errgroup pkg/proofs/sigma/compose/sigand/and.go,pkg/proofs/sigma/compose/sigor/or.go,pkg/encryption/utils.go,pkg/encryption/paillier/secret.go,pkg/signatures/bls/core.go,pkg/mpc/signatures/ecdsa/cggmp21/keygen/dkg/rounds.go,pkg/mpc/signatures/ecdsa/cggmp21/keygen/trusteddealer/dealer.go
